@@ -570,6 +570,10 @@ Lemma effective_good : forall c tc, admissible c tc ->
             match model_type c with
             | HddTiddCddSmooth => x_hdd_bp x - x_hdd_k x = lower_bp c /\ x_cdd_bp x + x_cdd_k x = upper_bp c
             | _ => x_hdd_bp x = lower_bp c /\ x_cdd_bp x = upper_bp c
+            end /\
+            match model_type c with
+            | HddTiddCdd | HddTidd | TiddCdd | Tidd => x_hdd_k x = 0 /\ x_cdd_k x = 0
+            | _ => True
             end.
 Proof.
   intros [s i hb hbeta hk cb cbeta ck] [Tmin Tmax Tminseg Tmaxseg] [[B1 [B2 B3]] A].
